@@ -11,7 +11,7 @@ static u8 *lf_buf;
 #endif
 static void lf_setup(u64 maxn) {
   lf_n = IN(0, maxn);
-  lf_buf = (u8 *)exact_alloc(lf_n);
+  lf_buf = (u8 *)exact_alloc_n(lf_n, maxn);
   for (u64 i = 0; i < maxn; ++i) { u8 v = IN_BYTE(); if (i < lf_n) lf_buf[i] = v; }
   lf_start = IN(0, lf_n);
 }
